@@ -10,6 +10,10 @@
                        attributes i_attrs x followed by typedpy's internal entries: `_none_fields` (the set of
                        the names in i_nones x, when present), `_instantiated` = True (when i_live x) and
                        `_trust_supplied_values` = trust (when given);
+     nested instances  an instance inside an attribute value is the value [PStruct cls attrs] of the universe
+                       (public attributes only); the __str__ / __hash__ theorems are also proved for [lift ni v],
+                       where every nested instance carries the internal entries ni (typedpy: `_none_fields` = an
+                       empty set, `_instantiated` = True) besides its public attributes;
      its class         the heap object named i_cls x ([class_view]): `_field_by_name` maps every field name n of
                        c to the Field object "field:n", `_enable_undefined_value` is set iff undef; the Field
                        object "field:n" has `_name` = n and `_default` = the field's default (None without one),
@@ -804,60 +808,6 @@ Section World.
   Notation vsf := (vs ns sr ev false).
   Notation vst := (vs ns sr ev true).
 
-  (* one step of Structure.__str__ on an instance whose __dict__ is the public part [pub] followed by internal
-     entries [ints], given that the local to_str works on the public values *)
-  Lemma SS_body cls pub ints nl f :
-    heap_plain -> plain_name cls = true ->
-    NoDup (map fst (pub ++ ints)) ->
-    (forall p, In p pub -> is_internal (fst p) = false) ->
-    (forall p, In p ints -> is_internal (fst p) = true) ->
-    alist_get (pub ++ ints) n_none_fields = match nl with Some l => Some (nones_val l) | None => None end ->
-    (forall p, In p pub -> Src_to_str_fuel W f (snd p) = Ok (PStr (vsf (snd p)))) ->
-    Src_Structure_str_fuel W (S f) (PStruct cls (pub ++ ints)) =
-    Ok (PStr (props_str cls (map (fun p => (fst p, attr_str ns sr ev (snd p))) pub)
-                        (match nl with Some l => l | None => [] end))).
-  Proof.
-    intros HP PN ND Hpub Hint Hnones HTS.
-    destruct (HP cls) as [Hname [Hcn Hcf]].
-    cbn [Src_Structure_str_fuel].
-    cbn [inst_class PyOpsFields.fld_class_of bind]. rewrite !any_getattr_ref. fold h. rewrite Hname.
-    cbn [bind py_str_startswith py_and]. unfold plain_name in PN. apply negb_true_iff in PN. rewrite PN.
-    cbn [bind inst_dict]. rewrite dict_of_attrs_skeys, dict_items_skeys. cbn [bind].
-    rewrite (py_sorted_entries _ ND). cbn [bind py_iter_obs PyOpsFields.py_iter].
-    erewrite (py_for_map_filter _ entry (fun p => negb (is_internal (fst p)))
-                                (fun p => fst p ++ s2p " = " ++ attr_str ns sr ev (snd p))).
-    2:{ intros e acc' He. rewrite unpack_entry. cbn [bind]. rewrite is_internal_in_dyn. cbn [py_not bind].
-        destruct (is_internal (fst e)) eqn:NI; cbn [negb]; [reflexivity|].
-        assert (Hin : In e pub).
-        { apply (Permutation_in _ (sort_perm _ _)) in He. apply in_app_or in He. destruct He as [He|He]; [exact He|].
-          rewrite (Hint e He) in NI. discriminate. }
-        assert (T : (if py_isinstance (snd e) [K_str]
-                     then f18 <- py_format_str (snd e);; Ok (PStr (s2p "'" ++ f18 ++ s2p "'"))
-                     else t19 <- Src_to_str_fuel W f (snd e);; Ok t19) = Ok (PStr (attr_str ns sr ev (snd e)))).
-        { rewrite (HTS e Hin). destruct (snd e); reflexivity. }
-        rewrite T. reflexivity. }
-    cbn [bind app].
-    assert (GN : any_getattr_def (Src_Field_get W) h (PStruct cls (pub ++ ints)) (s2p "_none_fields") (PList []) =
-                 Ok (match nl with Some l => nones_val l | None => PList [] end)).
-    { unfold any_getattr_def, any_getattr. unfold n_none_fields in *. rewrite Hcf, Hnones.
-      destruct nl; [reflexivity|]. rewrite Hcn. reflexivity. }
-    rewrite GN. cbn [bind].
-    assert (IT : py_iter_obs (match nl with Some l => nones_val l | None => PList [] end) =
-                 Ok (map PStr (match nl with Some l => l | None => [] end))).
-    { destruct nl; reflexivity. }
-    rewrite IT. cbn [bind]. rewrite py_sorted_strs. cbn [bind py_iter_obs PyOpsFields.py_iter].
-    erewrite (py_for_map_filter _ PStr (fun _ => true) (fun k => k ++ s2p " = None")).
-    2:{ intros e acc' He. reflexivity. }
-    cbn [bind]. rewrite (filter_all (fun _ : pystr => true)); [|reflexivity].
-    rewrite (filter_sorted_public pub ints ND Hpub Hint).
-    rewrite <- (map_map (fun p : pystr * pyval => fst p ++ s2p " = " ++ attr_str ns sr ev (snd p)) PStr).
-    rewrite <- (map_map (fun k : pystr => k ++ s2p " = None") PStr).
-    rewrite <- map_app. rewrite join_strs. cbn [bind py_format_str py_format].
-    unfold props_str.
-    rewrite (sort_map (fun p : pystr * pyval => (fst p, attr_str ns sr ev (snd p))) (fun q => eq_refl)).
-    rewrite map_map. reflexivity.
-  Qed.
-
   (* ---------------------------------------------------------------- heights *)
 
   Notation height := PyOpsVersioned.py_height.
@@ -951,6 +901,30 @@ Section World.
   Lemma num_repr_eq n : so_num_repr O n = num_repr ns n.
   Proof. destruct n; reflexivity. Qed.
 
+
+  Lemma mapM_ok2 {A B} (g : A -> res B) l ys : Forall2 (fun x y => g x = Ok y) l ys -> mapM g l = Ok ys.
+  Proof.
+    induction 1 as [|x y l ys Hx Hl IH]; [reflexivity|]. cbn [mapM]. rewrite Hx. cbn [bind]. rewrite IH. reflexivity.
+  Qed.
+
+  Lemma Forall2_map {A B C} (R : B -> C -> Prop) (f : A -> B) (g : A -> C) l :
+    Forall (fun x => R (f x) (g x)) l -> Forall2 R (map f l) (map g l).
+  Proof. induction 1; cbn [map]; constructor; assumption. Qed.
+
+  Lemma reprs_ok2 srec l ss : Forall2 (fun x s => py_repr O srec x = Ok s) l ss -> reprs_of srec l = Ok ss.
+  Proof.
+    induction 1 as [|x s l ss Hx Hl IH]; [reflexivity|]. cbn [reprs_of]. rewrite Hx. cbn [bind].
+    fold (reprs_of srec). rewrite IH. reflexivity.
+  Qed.
+
+  Lemma dict_reprs_ok2 srec kv ss :
+    Forall2 (fun p s => exists a b, py_repr O srec (fst p) = Ok a /\ py_repr O srec (snd p) = Ok b /\ s = a ++ s2p ": " ++ b) kv ss ->
+    dict_reprs_of srec kv = Ok ss.
+  Proof.
+    induction 1 as [|[k x] s l ss [a [b [Ha [Hb ->]]]] Hl IH]; [reflexivity|]. cbn [dict_reprs_of fst snd] in *.
+    rewrite Ha, Hb. cbn [bind]. fold (dict_reprs_of srec). rewrite IH. reflexivity.
+  Qed.
+
   (* ---------------------------------------------------------------- the values __str__ is predicted on *)
 
   (* at every depth: an instance of a Structure class has distinct, public attribute names and a class name that
@@ -971,184 +945,351 @@ Section World.
   Notation LS := (Src_list_to_str_fuel W).
   Notation DS := (Src_dict_to_str_fuel W).
 
-  Lemma LS_ok f v l :
-    py_iter_obs v = Ok l -> Forall (fun x => TS f x = Ok (PStr (vsf x))) l ->
-    LS (S f) v = Ok (PStr (join (s2p ",") (map vsf l))).
+  Lemma LS_ok f v l ss :
+    py_iter_obs v = Ok l -> Forall2 (fun x s => TS f x = Ok (PStr s)) l ss ->
+    LS (S f) v = Ok (PStr (join (s2p ",") ss)).
   Proof.
     intros I F. cbn [Src_list_to_str_fuel]. rewrite I. cbn [bind].
-    rewrite (mapM_ok _ (fun x => PStr (vsf x))).
-    2:{ apply (Forall_impl _ (P := fun x => TS f x = Ok (PStr (vsf x)))); [|exact F]. intros x Hx. rewrite Hx. reflexivity. }
-    cbn [bind]. rewrite <- (map_map vsf PStr). rewrite join_strs. reflexivity.
+    rewrite (mapM_ok2 _ l (map PStr ss)).
+    2:{ clear I. induction F as [|x s l ss Hx Hl IH]; cbn [map]; constructor; [rewrite Hx; reflexivity | exact IH]. }
+    cbn [bind]. rewrite join_strs. reflexivity.
   Qed.
 
-  Lemma DS_ok f kv :
-    Forall (fun p => TS f (fst p) = Ok (PStr (vsf (fst p))) /\ TS f (snd p) = Ok (PStr (vsf (snd p)))) kv ->
-    DS (S f) (PDict kv) = Ok (PStr (join (s2p ",") (map (fun p => vsf (fst p) ++ s2p " = " ++ vsf (snd p)) kv))).
+  Lemma DS_ok f kv ss :
+    Forall2 (fun p s => exists a b, TS f (fst p) = Ok (PStr a) /\ TS f (snd p) = Ok (PStr b) /\ s = a ++ s2p " = " ++ b) kv ss ->
+    DS (S f) (PDict kv) = Ok (PStr (join (s2p ",") ss)).
   Proof.
     intro F. cbn [Src_dict_to_str_fuel py_dict_items bind].
-    rewrite (mapM_ok _ (fun x => match x with PTuple [a; b] => PStr (vsf a ++ s2p " = " ++ vsf b) | _ => PNone end)).
-    2:{ apply Forall_forall. intros x Hx. apply in_map_iff in Hx. destruct Hx as [p [<- Hp]].
-        rewrite Forall_forall in F. destruct (F p Hp) as [F1 F2].
-        cbn [py_unpack py_iter_items bind length Nat.eqb]. rewrite F1, F2. reflexivity. }
-    cbn [bind]. rewrite map_map.
-    rewrite <- (map_map (fun p => vsf (fst p) ++ s2p " = " ++ vsf (snd p)) PStr). rewrite join_strs. reflexivity.
+    rewrite (mapM_ok2 _ _ (map PStr ss)).
+    2:{ induction F as [|[k x] s l ss [a [b [Ha [Hb ->]]]] Hl IH]; cbn [map]; constructor; [|exact IH].
+        cbn [fst snd py_unpack py_iter_items bind length Nat.eqb] in *. rewrite Ha, Hb. reflexivity. }
+    cbn [bind]. rewrite join_strs. reflexivity.
   Qed.
 
-  Definition T1 (v : pyval) : Prop :=
-    forall f, (2 * height v + 2 <= f)%nat -> TS f v = Ok (PStr (vsf v)).
-  Definition T2 (v : pyval) : Prop :=
-    forall f, (2 * height v + 1 <= f)%nat -> py_repr O (SS f) v = Ok (vst v).
-  Definition T3 (v : pyval) : Prop :=
-    forall c attrs, v = PStruct c attrs -> forall f, (2 * height v + 1 <= f)%nat -> SS f v = Ok (PStr (vsf v)).
-
-  Lemma Forall_sub (Q : pyval -> Prop) (R : pyval -> Prop) l :
-    Forall (fun x => str_ok x = true -> Q x) l -> forallb str_ok l = true -> (forall x, In x l -> Q x -> R x) -> Forall R l.
-  Proof.
-    intros F S H. rewrite Forall_forall in *. rewrite forallb_forall in S. intros x Hx. apply (H x Hx). apply F; [exact Hx | apply S; exact Hx].
-  Qed.
-
-  Ltac fuel2 f f1 f2 H := destruct f as [|[|f2]]; [lia | lia |].
-
-  Lemma T_all : heap_plain -> forall v, str_ok v = true -> T1 v /\ T2 v /\ T3 v.
-  Proof.
-    intro HP. induction v using pyval_ind'; intro SO.
-    - (* None *) split; [|split]; [intros [|f] Hf; [lia | reflexivity] | intros f Hf; reflexivity | intros ? ? E; discriminate E].
-    - (* bool *) split; [|split]; [intros [|f] Hf; [lia | destruct b; reflexivity] | intros f Hf; destruct b; reflexivity | intros ? ? E; discriminate E].
-    - (* number *) split; [|split]; [intros [|f] Hf; [lia | reflexivity] | intros f Hf; cbn [py_repr vs]; rewrite num_repr_eq; reflexivity | intros ? ? E; discriminate E].
-    - (* str *) split; [|split]; [intros [|f] Hf; [lia | reflexivity] | intros f Hf; reflexivity | intros ? ? E; discriminate E].
-    - (* list *)
-      cbn [str_ok] in SO. split; [|split]; [| |intros ? ? E; discriminate E].
-      + intros f Hf. rewrite PyOpsVersioned.py_height_list in Hf. destruct f as [|[|f]]; try lia.
-        cbn [Src_to_str_fuel py_isinstance existsb isinstance1 orb bind].
-        rewrite (LS_ok f (PList l) l eq_refl).
-        * reflexivity.
-        * apply (Forall_sub _ _ _ H SO). intros x Hx [Q _]. apply Q.
-          pose proof (PyOpsVersioned.list_height_in x l Hx). lia.
-      + intros f Hf. rewrite PyOpsVersioned.py_height_list in Hf. rewrite py_repr_list, (reprs_ok _ l).
-        * cbn [bind vs sep]. rewrite str_join_eq. reflexivity.
-        * apply (Forall_sub _ _ _ H SO). intros x Hx [_ [Q _]]. apply Q.
-          pose proof (PyOpsVersioned.list_height_in x l Hx). lia.
-    - (* tuple *)
-      cbn [str_ok] in SO. split; [|split]; [| |intros ? ? E; discriminate E].
-      + intros f Hf. rewrite PyOpsVersioned.py_height_tuple in Hf. destruct f as [|[|f]]; try lia.
-        cbn [Src_to_str_fuel py_isinstance existsb isinstance1 orb bind].
-        rewrite (LS_ok f (PTuple l) l eq_refl).
-        * reflexivity.
-        * apply (Forall_sub _ _ _ H SO). intros x Hx [Q _]. apply Q.
-          pose proof (PyOpsVersioned.list_height_in x l Hx). lia.
-      + intros f Hf. rewrite PyOpsVersioned.py_height_tuple in Hf. rewrite py_repr_tuple, (reprs_ok _ l).
-        * cbn [bind vs sep andb]. rewrite str_join_eq. reflexivity.
-        * apply (Forall_sub _ _ _ H SO). intros x Hx [_ [Q _]]. apply Q.
-          pose proof (PyOpsVersioned.list_height_in x l Hx). lia.
-    - (* deque *)
-      cbn [str_ok] in SO. split; [|split]; [| |intros ? ? E; discriminate E].
-      + intros f Hf. rewrite height_deque in Hf. destruct f as [|f]; try lia.
-        cbn [Src_to_str_fuel py_isinstance existsb isinstance1 orb bind]. unfold py_str, py_str_text. fold O.
-        rewrite py_repr_deque, (reprs_ok _ l).
-        * cbn [bind vs]. rewrite str_join_eq. reflexivity.
-        * apply (Forall_sub _ _ _ H SO). intros x Hx [_ [Q _]]. apply Q.
-          pose proof (PyOpsVersioned.list_height_in x l Hx). lia.
-      + intros f Hf. rewrite height_deque in Hf. rewrite py_repr_deque, (reprs_ok _ l).
-        * cbn [bind vs]. rewrite str_join_eq. reflexivity.
-        * apply (Forall_sub _ _ _ H SO). intros x Hx [_ [Q _]]. apply Q.
-          pose proof (PyOpsVersioned.list_height_in x l Hx). lia.
-    - (* set / frozenset *)
-      cbn [str_ok] in SO. split; [|split]; [| |intros ? ? E; discriminate E].
-      + intros fu Hf. rewrite height_set in Hf. destruct f.
-        * destruct fu as [|fu]; try lia.
-          cbn [Src_to_str_fuel py_isinstance existsb isinstance1 orb bind]. unfold py_str, py_str_text. fold O.
-          rewrite py_repr_frozenset, (reprs_ok _ l).
-          -- cbn [bind vs]. rewrite str_join_eq. reflexivity.
-          -- apply (Forall_sub _ _ _ H SO). intros x Hx [_ [Q _]]. apply Q.
-             pose proof (PyOpsVersioned.list_height_in x l Hx). lia.
-        * destruct fu as [|[|fu]]; try lia.
-          cbn [Src_to_str_fuel py_isinstance existsb isinstance1 orb bind].
-          rewrite (LS_ok fu (PSet false l) l eq_refl).
-          -- reflexivity.
-          -- apply (Forall_sub _ _ _ H SO). intros x Hx [Q _]. apply Q.
-             pose proof (PyOpsVersioned.list_height_in x l Hx). lia.
-      + intros fu Hf. rewrite height_set in Hf. destruct f.
-        * rewrite py_repr_frozenset, (reprs_ok _ l).
-          -- cbn [bind vs]. rewrite str_join_eq. reflexivity.
-          -- apply (Forall_sub _ _ _ H SO). intros x Hx [_ [Q _]]. apply Q.
-             pose proof (PyOpsVersioned.list_height_in x l Hx). lia.
-        * rewrite py_repr_set, (reprs_ok _ l).
-          -- cbn [bind vs sep andb]. rewrite str_join_eq. reflexivity.
-          -- apply (Forall_sub _ _ _ H SO). intros x Hx [_ [Q _]]. apply Q.
-             pose proof (PyOpsVersioned.list_height_in x l Hx). lia.
-    - (* dict *)
-      cbn [str_ok] in SO. rewrite forallb_forall in SO. rewrite Forall_forall in H.
-      split; [|split]; [| |intros ? ? E; discriminate E].
-      + intros f Hf. rewrite PyOpsVersioned.py_height_dict in Hf. destruct f as [|[|f]]; try lia.
-        cbn [Src_to_str_fuel py_isinstance existsb isinstance1 orb bind].
-        rewrite (DS_ok f kv).
-        * reflexivity.
-        * apply Forall_forall. intros [k x] Hp. specialize (SO _ Hp). apply andb_true_iff in SO. destruct SO as [S1 S2].
-          destruct (H _ Hp) as [Hk Hx]. cbn [fst snd] in *.
-          pose proof (dict_height_in_k k x kv Hp). pose proof (PyOpsVersioned.dict_height_in k x kv Hp).
-          split; [apply (proj1 (Hk S1)) | apply (proj1 (Hx S2))]; lia.
-      + intros f Hf. rewrite PyOpsVersioned.py_height_dict in Hf. rewrite py_repr_dict, (dict_reprs_ok _ kv).
-        * cbn [bind vs sep]. rewrite str_join_eq. reflexivity.
-        * apply Forall_forall. intros [k x] Hp. specialize (SO _ Hp). apply andb_true_iff in SO. destruct SO as [S1 S2].
-          destruct (H _ Hp) as [Hk Hx]. cbn [fst snd] in *.
-          pose proof (dict_height_in_k k x kv Hp). pose proof (PyOpsVersioned.dict_height_in k x kv Hp).
-          split; [apply (proj1 (proj2 (Hk S1))) | apply (proj1 (proj2 (Hx S2)))]; lia.
-    - (* enum member *)
-      split; [|split]; [intros [|f] Hf; [lia | reflexivity] | intros f Hf; reflexivity | intros ? ? E; discriminate E].
-    - (* an instance of a Structure class *)
-      cbn [str_ok] in SO. apply andb_true_iff in SO. destruct SO as [SO S3]. apply andb_true_iff in SO. destruct SO as [S1 S2].
-      rewrite forallb_forall in S3. rewrite Forall_forall in H.
-      assert (R3 : forall f, (2 * height (PStruct c attrs) + 1 <= f)%nat ->
-                             SS f (PStruct c attrs) = Ok (PStr (vsf (PStruct c attrs)))).
-      { intros f Hf. rewrite height_struct in Hf. destruct f as [|f]; try lia.
-        rewrite <- (app_nil_r attrs) at 1.
-        rewrite (SS_body c attrs [] None f HP S1).
-        - reflexivity.
-        - rewrite app_nil_r. apply nodup_by_NoDup. exact S2.
-        - intros p Hp. specialize (S3 p Hp). apply andb_true_iff in S3. apply negb_true_iff. exact (proj1 S3).
-        - intros p [].
-        - rewrite app_nil_r. apply alist_get_notin. intro Hin. apply in_map_iff in Hin. destruct Hin as [p [E Hp]].
-          specialize (S3 p Hp). apply andb_true_iff in S3. rewrite E in S3. destruct S3 as [S3 _]. discriminate S3.
-        - intros [k x] Hp. specialize (S3 _ Hp). apply andb_true_iff in S3. cbn [snd fst] in *.
-          destruct (H _ Hp (proj2 S3)) as [Q _]. cbn [snd] in Q. apply Q. pose proof (attrs_height_in k x attrs Hp). lia. }
-      split; [|split].
-      + intros f Hf. destruct f as [|f]; try lia.
-        cbn [Src_to_str_fuel py_isinstance existsb isinstance1 orb bind]. unfold py_str, py_str_text. cbn [py_repr]. unfold struct_text. fold O.
-        assert (R : SS f (PStruct c attrs) = Ok (PStr (vsf (PStruct c attrs)))) by (apply R3; lia).
-        rewrite R. reflexivity.
-      + intros f Hf. cbn [py_repr]. unfold struct_text. rewrite (R3 f Hf). reflexivity.
-      + intros c' attrs' _ f Hf. apply R3. exact Hf.
-    - (* another object *)
-      split; [|split]; [intros [|f] Hf; [lia | reflexivity] | intros f Hf; reflexivity | intros ? ? E; discriminate E].
-  Qed.
+  Lemma attrs_height_app_l k x (l m : list (pystr * pyval)) : In (k, x) l -> (height x <= attrs_height (l ++ m))%nat.
+  Proof. intro H. apply (attrs_height_in k). apply in_or_app. left. exact H. Qed.
 
   (* the instances __str__ is predicted on: the class name is printed as it is, __dict__ is a dict of public names,
      the attribute values are [str_ok] *)
   Definition inst_str_ok (x : inst) : bool :=
     plain_name (i_cls x) && keys_ok x && forallb (fun p => str_ok (snd p)) (i_attrs x).
 
-  Lemma attrs_height_app_l k x (l m : list (pystr * pyval)) : In (k, x) l -> (height x <= attrs_height (l ++ m))%nat.
-  Proof. intro H. apply (attrs_height_in k). apply in_or_app. left. exact H. Qed.
+  Section Nested.
+    (* The internal entries that the __dict__ of a NESTED instance carries besides its public attributes (typedpy:
+       `_none_fields` and `_instantiated`).  [lift v] is the Python-level value of the model value v: at every depth
+       an instance [PStruct cls attrs] of the value universe (public attributes only) becomes the instance whose
+       __dict__ is its (lifted) attributes followed by [ni]. *)
+    Variable ni : list (pystr * pyval).
+
+    Fixpoint lift (v : pyval) : pyval :=
+      match v with
+      | PList l => PList (map lift l)
+      | PTuple l => PTuple (map lift l)
+      | PDeque l => PDeque (map lift l)
+      | PSet fr l => PSet fr (map lift l)
+      | PDict kv => PDict (map (fun p => (lift (fst p), lift (snd p))) kv)
+      | PStruct c attrs => PStruct c (map (fun p => (fst p, lift (snd p))) attrs ++ ni)
+      | _ => v
+      end.
+
+    (* [ni] holds internal names only, each once, and no None-marked name (the value universe has no place for
+       the None-marked names of a nested instance) *)
+    Definition ni_ok : bool :=
+      forallb (fun p => is_internal (fst p)) ni && nodup_by pystr_eqb (map fst ni) &&
+      match alist_get ni n_none_fields with
+      | None => true
+      | Some (PSet false []) => true
+      | _ => false
+      end.
+
+    Definition lift_attrs (attrs : list (pystr * pyval)) : list (pystr * pyval) :=
+      map (fun p => (fst p, lift (snd p))) attrs.
+
+    Definition lift_pub (p : pystr * pyval) : pystr * pyval :=
+      (fst p, if is_internal (fst p) then snd p else lift (snd p)).
+
+    Lemma alist_get_lift_pub d k : is_internal k = true -> alist_get (map lift_pub d) k = alist_get d k.
+    Proof.
+      intro I. induction d as [|[k' v] d IH]; [reflexivity|]. cbn [map lift_pub fst snd alist_get].
+      destruct (pystr_eqb k' k) eqn:E; [|exact IH]. apply pystr_eqb_spec in E. subst k'. rewrite I. reflexivity.
+    Qed.
+
+    (* one step of Structure.__str__ on an instance whose __dict__ is the public part [pub] (lifted) followed by
+       internal entries [ints], given that the local to_str works on the public values *)
+    Lemma SS_body cls pub ints nl f :
+      heap_plain -> plain_name cls = true ->
+      NoDup (map fst (pub ++ ints)) ->
+      (forall p, In p pub -> is_internal (fst p) = false) ->
+      (forall p, In p ints -> is_internal (fst p) = true) ->
+      alist_get (pub ++ ints) n_none_fields = match nl with Some l => Some (nones_val l) | None => None end ->
+      (forall p, In p pub -> Src_to_str_fuel W f (lift (snd p)) = Ok (PStr (vsf (snd p)))) ->
+      Src_Structure_str_fuel W (S f) (PStruct cls (lift_attrs pub ++ ints)) =
+      Ok (PStr (props_str cls (map (fun p => (fst p, attr_str ns sr ev (snd p))) pub)
+                          (match nl with Some l => l | None => [] end))).
+    Proof.
+      intros HP PN ND Hpub Hint Hnones HTS.
+      assert (D : lift_attrs pub ++ ints = map lift_pub (pub ++ ints)).
+      { rewrite map_app. f_equal.
+        - apply map_ext_in. intros p Hp. unfold lift_pub. rewrite (Hpub p Hp). reflexivity.
+        - rewrite <- (map_id ints) at 1. apply map_ext_in. intros p Hp. unfold lift_pub. rewrite (Hint p Hp). destruct p; reflexivity. }
+      rewrite D.
+      assert (ND' : NoDup (map fst (map lift_pub (pub ++ ints)))) by (rewrite map_map; exact ND).
+      destruct (HP cls) as [Hname [Hcn Hcf]].
+      cbn [Src_Structure_str_fuel].
+      cbn [inst_class PyOpsFields.fld_class_of bind]. rewrite !any_getattr_ref. fold h. rewrite Hname.
+      cbn [bind py_str_startswith py_and]. unfold plain_name in PN. apply negb_true_iff in PN. rewrite PN.
+      cbn [bind inst_dict]. rewrite dict_of_attrs_skeys, dict_items_skeys. cbn [bind].
+      rewrite (py_sorted_entries _ ND'). cbn [bind py_iter_obs PyOpsFields.py_iter].
+      rewrite (sort_map lift_pub (fun q => eq_refl)), map_map.
+      erewrite (py_for_map_filter _ (fun p => entry (lift_pub p)) (fun p => negb (is_internal (fst p)))
+                                  (fun p => fst p ++ s2p " = " ++ attr_str ns sr ev (snd p))).
+      2:{ intros e acc' He. rewrite unpack_entry. cbn [bind lift_pub fst snd]. rewrite is_internal_in_dyn. cbn [py_not bind].
+          destruct (is_internal (fst e)) eqn:NI; cbn [negb]; [reflexivity|].
+          assert (Hin : In e pub).
+          { apply (Permutation_in _ (sort_perm _ _)) in He. apply in_app_or in He. destruct He as [He|He]; [exact He|].
+            rewrite (Hint e He) in NI. discriminate. }
+          assert (T : (if py_isinstance (lift (snd e)) [K_str]
+                       then f18 <- py_format_str (lift (snd e));; Ok (PStr (s2p "'" ++ f18 ++ s2p "'"))
+                       else t19 <- Src_to_str_fuel W f (lift (snd e));; Ok t19) = Ok (PStr (attr_str ns sr ev (snd e)))).
+          { rewrite (HTS e Hin). destruct (snd e); reflexivity. }
+          rewrite T. reflexivity. }
+      cbn [bind app].
+      assert (GN : any_getattr_def (Src_Field_get W) h (PStruct cls (map lift_pub (pub ++ ints))) (s2p "_none_fields") (PList []) =
+                   Ok (match nl with Some l => nones_val l | None => PList [] end)).
+      { unfold any_getattr_def, any_getattr. unfold n_none_fields in *. rewrite Hcf.
+        rewrite (alist_get_lift_pub _ (s2p "_none_fields") eq_refl), Hnones.
+        destruct nl; [reflexivity|]. rewrite Hcn. reflexivity. }
+      rewrite GN. cbn [bind].
+      assert (IT : py_iter_obs (match nl with Some l => nones_val l | None => PList [] end) =
+                   Ok (map PStr (match nl with Some l => l | None => [] end))).
+      { destruct nl; reflexivity. }
+      rewrite IT. cbn [bind]. rewrite py_sorted_strs. cbn [bind py_iter_obs PyOpsFields.py_iter].
+      erewrite (py_for_map_filter _ PStr (fun _ => true) (fun k => k ++ s2p " = None")).
+      2:{ intros e acc' He. reflexivity. }
+      cbn [bind]. rewrite (filter_all (fun _ : pystr => true)); [|reflexivity].
+      rewrite (filter_sorted_public pub ints ND Hpub Hint).
+      rewrite <- (map_map (fun p : pystr * pyval => fst p ++ s2p " = " ++ attr_str ns sr ev (snd p)) PStr).
+      rewrite <- (map_map (fun k : pystr => k ++ s2p " = None") PStr).
+      rewrite <- map_app. rewrite join_strs. cbn [bind py_format_str py_format].
+      unfold props_str.
+      rewrite (sort_map (fun p : pystr * pyval => (fst p, attr_str ns sr ev (snd p))) (fun q => eq_refl)).
+      rewrite map_map. reflexivity.
+    Qed.
+
+    Definition T1 (v : pyval) : Prop :=
+      forall f, (2 * height (lift v) + 2 <= f)%nat -> TS f (lift v) = Ok (PStr (vsf v)).
+    Definition T2 (v : pyval) : Prop :=
+      forall f, (2 * height (lift v) + 1 <= f)%nat -> py_repr O (SS f) (lift v) = Ok (vst v).
+    Definition T3 (v : pyval) : Prop :=
+      forall c attrs, v = PStruct c attrs -> forall f, (2 * height (lift v) + 1 <= f)%nat -> SS f (lift v) = Ok (PStr (vsf v)).
+
+    Lemma Forall_sub (Q : pyval -> Prop) (R : pyval -> Prop) l :
+      Forall (fun x => str_ok x = true -> Q x) l -> forallb str_ok l = true -> (forall x, In x l -> Q x -> R x) -> Forall R l.
+    Proof.
+      intros F S H. rewrite Forall_forall in *. rewrite forallb_forall in S. intros x Hx. apply (H x Hx). apply F; [exact Hx | apply S; exact Hx].
+    Qed.
+
+    Lemma lift_height_in x l : In x l -> (height (lift x) <= PyOpsVersioned.list_height (map lift l))%nat.
+    Proof. intro H. apply PyOpsVersioned.list_height_in. apply in_map. exact H. Qed.
+
+    (* the elements of a lifted sequence: to_str / repr of each, given the induction hypothesis *)
+    Lemma elems_T1 l f :
+      Forall (fun x => str_ok x = true -> T1 x /\ T2 x /\ T3 x) l -> forallb str_ok l = true ->
+      (2 * PyOpsVersioned.list_height (map lift l) + 2 <= f)%nat ->
+      Forall2 (fun x s => TS f x = Ok (PStr s)) (map lift l) (map vsf l).
+    Proof.
+      intros H SO Hf. apply Forall2_map. apply (Forall_sub _ _ _ H SO). intros x Hx [Q _]. apply Q.
+      pose proof (lift_height_in x l Hx). lia.
+    Qed.
+
+    Lemma elems_T2 l f :
+      Forall (fun x => str_ok x = true -> T1 x /\ T2 x /\ T3 x) l -> forallb str_ok l = true ->
+      (2 * PyOpsVersioned.list_height (map lift l) + 1 <= f)%nat ->
+      Forall2 (fun x s => py_repr O (SS f) x = Ok s) (map lift l) (map vst l).
+    Proof.
+      intros H SO Hf. apply Forall2_map. apply (Forall_sub _ _ _ H SO). intros x Hx [_ [Q _]]. apply Q.
+      pose proof (lift_height_in x l Hx). lia.
+    Qed.
+
+    Lemma T_all_nested : heap_plain -> ni_ok = true -> forall v, str_ok v = true -> T1 v /\ T2 v /\ T3 v.
+    Proof.
+      intros HP NI. induction v using pyval_ind'; intro SO.
+      - (* None *) split; [|split]; [intros [|f] Hf; [lia | reflexivity] | intros f Hf; reflexivity | intros ? ? E; discriminate E].
+      - (* bool *) split; [|split]; [intros [|f] Hf; [lia | destruct b; reflexivity] | intros f Hf; destruct b; reflexivity | intros ? ? E; discriminate E].
+      - (* number *) split; [|split]; [intros [|f] Hf; [lia | reflexivity] | intros f Hf; cbn [lift py_repr vs]; rewrite num_repr_eq; reflexivity | intros ? ? E; discriminate E].
+      - (* str *) split; [|split]; [intros [|f] Hf; [lia | reflexivity] | intros f Hf; reflexivity | intros ? ? E; discriminate E].
+      - (* list *)
+        cbn [str_ok] in SO. split; [|split]; [| |intros ? ? E; discriminate E].
+        + intros f Hf. cbn [lift] in *. rewrite PyOpsVersioned.py_height_list in Hf. destruct f as [|[|f]]; try lia.
+          cbn [Src_to_str_fuel py_isinstance existsb isinstance1 orb bind].
+          rewrite (LS_ok f (PList (map lift l)) (map lift l) (map vsf l) eq_refl); [reflexivity|].
+          apply (elems_T1 l f H SO). lia.
+        + intros f Hf. cbn [lift] in *. rewrite PyOpsVersioned.py_height_list in Hf.
+          rewrite py_repr_list, (reprs_ok2 _ (map lift l) (map vst l)).
+          * cbn [bind vs sep]. rewrite str_join_eq. reflexivity.
+          * apply (elems_T2 l f H SO). lia.
+      - (* tuple *)
+        cbn [str_ok] in SO. split; [|split]; [| |intros ? ? E; discriminate E].
+        + intros f Hf. cbn [lift] in *. rewrite PyOpsVersioned.py_height_tuple in Hf. destruct f as [|[|f]]; try lia.
+          cbn [Src_to_str_fuel py_isinstance existsb isinstance1 orb bind].
+          rewrite (LS_ok f (PTuple (map lift l)) (map lift l) (map vsf l) eq_refl); [reflexivity|].
+          apply (elems_T1 l f H SO). lia.
+        + intros f Hf. cbn [lift] in *. rewrite PyOpsVersioned.py_height_tuple in Hf.
+          rewrite py_repr_tuple, (reprs_ok2 _ (map lift l) (map vst l)).
+          * cbn [bind vs sep andb]. rewrite str_join_eq, map_length. reflexivity.
+          * apply (elems_T2 l f H SO). lia.
+      - (* deque *)
+        cbn [str_ok] in SO. split; [|split]; [| |intros ? ? E; discriminate E].
+        + intros f Hf. cbn [lift] in *. rewrite height_deque in Hf. destruct f as [|f]; try lia.
+          cbn [Src_to_str_fuel py_isinstance existsb isinstance1 orb bind]. unfold py_str, py_str_text. fold O.
+          rewrite py_repr_deque, (reprs_ok2 _ (map lift l) (map vst l)).
+          * cbn [bind vs]. rewrite str_join_eq. reflexivity.
+          * apply (elems_T2 l f H SO). lia.
+        + intros f Hf. cbn [lift] in *. rewrite height_deque in Hf.
+          rewrite py_repr_deque, (reprs_ok2 _ (map lift l) (map vst l)).
+          * cbn [bind vs]. rewrite str_join_eq. reflexivity.
+          * apply (elems_T2 l f H SO). lia.
+      - (* set / frozenset *)
+        cbn [str_ok] in SO. split; [|split]; [| |intros ? ? E; discriminate E].
+        + intros fu Hf. cbn [lift] in *. rewrite height_set in Hf. destruct f.
+          * destruct fu as [|fu]; try lia.
+            cbn [Src_to_str_fuel py_isinstance existsb isinstance1 orb bind]. unfold py_str, py_str_text. fold O.
+            rewrite py_repr_frozenset, (reprs_ok2 _ (map lift l) (map vst l)).
+            -- cbn [bind vs]. rewrite str_join_eq, map_length. reflexivity.
+            -- apply (elems_T2 l fu H SO). lia.
+          * destruct fu as [|[|fu]]; try lia.
+            cbn [Src_to_str_fuel py_isinstance existsb isinstance1 orb bind].
+            rewrite (LS_ok fu (PSet false (map lift l)) (map lift l) (map vsf l) eq_refl); [reflexivity|].
+            apply (elems_T1 l fu H SO). lia.
+        + intros fu Hf. cbn [lift] in *. rewrite height_set in Hf. destruct f.
+          * rewrite py_repr_frozenset, (reprs_ok2 _ (map lift l) (map vst l)).
+            -- cbn [bind vs]. rewrite str_join_eq, map_length. reflexivity.
+            -- apply (elems_T2 l fu H SO). lia.
+          * rewrite py_repr_set, (reprs_ok2 _ (map lift l) (map vst l)).
+            -- cbn [bind vs sep andb]. rewrite str_join_eq, map_length. reflexivity.
+            -- apply (elems_T2 l fu H SO). lia.
+      - (* dict *)
+        cbn [str_ok] in SO. rewrite forallb_forall in SO. rewrite Forall_forall in H.
+        assert (HB : forall k x, In (k, x) kv ->
+                     (height (lift k) <= PyOpsVersioned.dict_height (map (fun p => (lift (fst p), lift (snd p))) kv))%nat /\
+                     (height (lift x) <= PyOpsVersioned.dict_height (map (fun p => (lift (fst p), lift (snd p))) kv))%nat).
+        { intros k x Hp. apply (in_map (fun p => (lift (fst p), lift (snd p)))) in Hp. cbn [fst snd] in Hp.
+          split; [apply (dict_height_in_k _ _ _ Hp) | apply (PyOpsVersioned.dict_height_in _ _ _ Hp)]. }
+        split; [|split]; [| |intros ? ? E; discriminate E].
+        + intros f Hf. cbn [lift] in *. rewrite PyOpsVersioned.py_height_dict in Hf. destruct f as [|[|f]]; try lia.
+          cbn [Src_to_str_fuel py_isinstance existsb isinstance1 orb bind].
+          rewrite (DS_ok f _ (map (fun p => vsf (fst p) ++ s2p " = " ++ vsf (snd p)) kv)); [reflexivity|].
+          apply Forall2_map. apply Forall_forall. intros [k x] Hp. specialize (SO _ Hp). apply andb_true_iff in SO. destruct SO as [S1 S2].
+          destruct (H _ Hp) as [Hk Hx]. destruct (HB k x Hp) as [B1 B2]. cbn [fst snd] in *.
+          exists (vsf k), (vsf x). split; [apply (proj1 (Hk S1)); lia|]. split; [apply (proj1 (Hx S2)); lia | reflexivity].
+        + intros f Hf. cbn [lift] in *. rewrite PyOpsVersioned.py_height_dict in Hf.
+          rewrite py_repr_dict, (dict_reprs_ok2 _ _ (map (fun p => vst (fst p) ++ s2p ": " ++ vst (snd p)) kv)).
+          * cbn [bind vs sep]. rewrite str_join_eq. reflexivity.
+          * apply Forall2_map. apply Forall_forall. intros [k x] Hp. specialize (SO _ Hp). apply andb_true_iff in SO. destruct SO as [S1 S2].
+            destruct (H _ Hp) as [Hk Hx]. destruct (HB k x Hp) as [B1 B2]. cbn [fst snd] in *.
+            exists (vst k), (vst x). split; [apply (proj1 (proj2 (Hk S1))); lia|]. split; [apply (proj1 (proj2 (Hx S2))); lia | reflexivity].
+      - (* enum member *)
+        split; [|split]; [intros [|f] Hf; [lia | reflexivity] | intros f Hf; reflexivity | intros ? ? E; discriminate E].
+      - (* an instance of a Structure class *)
+        cbn [str_ok] in SO. apply andb_true_iff in SO. destruct SO as [SO S3]. apply andb_true_iff in SO. destruct SO as [S1 S2].
+        rewrite forallb_forall in S3. rewrite Forall_forall in H.
+        unfold ni_ok in NI. apply andb_true_iff in NI. destruct NI as [NI N3]. apply andb_true_iff in NI. destruct NI as [N1 N2].
+        rewrite forallb_forall in N1.
+        assert (Hpub : forall p, In p attrs -> is_internal (fst p) = false).
+        { intros p Hp. specialize (S3 p Hp). apply andb_true_iff in S3. apply negb_true_iff. exact (proj1 S3). }
+        assert (R3 : forall f, (2 * height (lift (PStruct c attrs)) + 1 <= f)%nat ->
+                               SS f (lift (PStruct c attrs)) = Ok (PStr (vsf (PStruct c attrs)))).
+        { intros f Hf. cbn [lift] in *. fold (lift_attrs attrs) in *. rewrite height_struct in Hf. destruct f as [|f]; try lia.
+          rewrite (SS_body c attrs ni (match alist_get ni n_none_fields with Some _ => Some [] | None => None end) f HP S1).
+          - destruct (alist_get ni n_none_fields); reflexivity.
+          - rewrite map_app. apply NoDup_app_disj; [apply nodup_by_NoDup; exact S2 | apply nodup_by_NoDup; exact N2|].
+            intros k Hk Hk'. apply in_map_iff in Hk. destruct Hk as [p [<- Hp]]. apply in_map_iff in Hk'. destruct Hk' as [q [E Hq]].
+            pose proof (Hpub p Hp) as P1. pose proof (N1 q Hq) as P2. rewrite E in P2. congruence.
+          - exact Hpub.
+          - exact N1.
+          - rewrite alist_get_app. rewrite (alist_get_notin attrs n_none_fields).
+            + destruct (alist_get ni n_none_fields) as [[| | | | | | |[|] [|]| | | |]|]; try discriminate N3; reflexivity.
+            + intro Hin. apply in_map_iff in Hin. destruct Hin as [p [E Hp]]. pose proof (Hpub p Hp) as P1. rewrite E in P1. discriminate P1.
+          - intros [k x] Hp. pose proof (S3 _ Hp) as S3p. apply andb_true_iff in S3p. cbn [snd fst] in *.
+            destruct (H _ Hp (proj2 S3p)) as [Q _]. cbn [snd] in Q. apply Q.
+            assert (In (k, lift x) (lift_attrs attrs)) by (apply (in_map (fun p => (fst p, lift (snd p))) attrs (k, x)); exact Hp).
+            pose proof (attrs_height_app_l k (lift x) (lift_attrs attrs) ni H0). lia. }
+        split; [|split].
+        + intros f Hf. destruct f as [|f]; try lia.
+          assert (R : SS f (lift (PStruct c attrs)) = Ok (PStr (vsf (PStruct c attrs)))) by (apply R3; lia).
+          cbn [lift] in *.
+          cbn [Src_to_str_fuel py_isinstance existsb isinstance1 orb bind]. unfold py_str, py_str_text. cbn [py_repr]. unfold struct_text. fold O.
+          rewrite R. reflexivity.
+        + intros f Hf. pose proof (R3 f Hf) as R. cbn [lift] in *. cbn [py_repr]. unfold struct_text. rewrite R. reflexivity.
+        + intros c' attrs' _ f Hf. apply R3. exact Hf.
+      - (* another object *)
+        split; [|split]; [intros [|f] Hf; [lia | reflexivity] | intros f Hf; reflexivity | intros ? ? E; discriminate E].
+    Qed.
+
+    (* the Python-level instance whose attribute values are lifted *)
+    Definition inst_obj_nested (x : inst) (t : option pyval) : pyval :=
+      PStruct (i_cls x) (lift_attrs (i_attrs x) ++ internals x t).
+
+    Theorem Src_str_is_inst_str_nested x t :
+      heap_plain -> ni_ok = true -> inst_str_ok x = true ->
+      Src_Structure_str W (inst_obj_nested x t) = Ok (PStr (inst_str ns sr ev x)).
+    Proof.
+      intros HP NI SO. unfold inst_str_ok in SO. apply andb_true_iff in SO. destruct SO as [SO S3].
+      apply andb_true_iff in SO. destruct SO as [S1 S2].
+      unfold Src_Structure_str, inst_obj_nested. cbn [PyOpsVersioned.heights fold_right].
+      rewrite height_struct.
+      replace (4 * S (S (attrs_height (lift_attrs (i_attrs x) ++ internals x t)) + 0))%nat
+        with (S (7 + 4 * attrs_height (lift_attrs (i_attrs x) ++ internals x t)))%nat by lia.
+      rewrite (SS_body (i_cls x) (i_attrs x) (internals x t) (i_nones x) _ HP S1).
+      - reflexivity.
+      - apply (dict_keys_nodup x t S2).
+      - unfold keys_ok in S2. apply andb_true_iff in S2. destruct S2 as [_ PA]. unfold public_attrs in PA.
+        rewrite forallb_forall in PA. intros p Hp. apply negb_true_iff. apply PA. exact Hp.
+      - apply internals_internal.
+      - unfold keys_ok in S2. apply andb_true_iff in S2. apply (dict_get_nones x t (proj2 S2)).
+      - intros [k v] Hp. rewrite forallb_forall in S3. pose proof (S3 _ Hp) as Sv. cbn [snd] in *.
+        apply (proj1 (T_all_nested HP NI v Sv)).
+        assert (In (k, lift v) (lift_attrs (i_attrs x))) by (apply (in_map (fun p => (fst p, lift (snd p))) _ (k, v)); exact Hp).
+        pose proof (attrs_height_app_l k (lift v) _ (internals x t) H). lia.
+    Qed.
+  End Nested.
+
+  (* with no extra entries the Python-level value is the model value itself *)
+  Lemma map_id_Forall {A} (g : A -> A) l : Forall (fun x => g x = x) l -> map g l = l.
+  Proof. induction 1 as [|x l Hx Hl IH]; [reflexivity|]. cbn [map]. rewrite Hx, IH. reflexivity. Qed.
+
+  Lemma lift_nil v : lift [] v = v.
+  Proof.
+    induction v using pyval_ind'; cbn [lift]; try reflexivity.
+    - f_equal. apply map_id_Forall. exact H.
+    - f_equal. apply map_id_Forall. exact H.
+    - f_equal. apply map_id_Forall. exact H.
+    - f_equal. apply map_id_Forall. exact H.
+    - f_equal. apply map_id_Forall. apply (Forall_impl _ (P := fun p => lift [] (fst p) = fst p /\ lift [] (snd p) = snd p)); [|exact H].
+      intros [k x] [E1 E2]. cbn [fst snd] in *. rewrite E1, E2. reflexivity.
+    - f_equal. rewrite app_nil_r. apply map_id_Forall. apply (Forall_impl _ (P := fun p => lift [] (snd p) = snd p)); [|exact H].
+      intros [k x] E. cbn [fst snd] in *. rewrite E. reflexivity.
+  Qed.
+
+  Lemma lift_attrs_nil attrs : lift_attrs [] attrs = attrs.
+  Proof.
+    unfold lift_attrs. apply map_id_Forall. apply Forall_forall. intros [k x] _. cbn [fst snd]. rewrite lift_nil. reflexivity.
+  Qed.
+
+  (* the local to_str of Structure.__str__ IS [vs false] *)
+  Lemma T_all : heap_plain -> forall v, str_ok v = true ->
+    forall f, (2 * height v + 2 <= f)%nat -> Src_to_str_fuel W f v = Ok (PStr (vsf v)).
+  Proof.
+    intros HP v SO f Hf. pose proof (proj1 (T_all_nested [] HP eq_refl v SO)) as Q. unfold T1 in Q.
+    rewrite lift_nil in Q. apply Q. exact Hf.
+  Qed.
 
   Theorem Src_str_is_inst_str x t :
     heap_plain -> inst_str_ok x = true ->
     Src_Structure_str W (inst_obj x t) = Ok (PStr (inst_str ns sr ev x)).
   Proof.
-    intros HP SO. unfold inst_str_ok in SO. apply andb_true_iff in SO. destruct SO as [SO S3].
-    apply andb_true_iff in SO. destruct SO as [S1 S2].
-    unfold Src_Structure_str, inst_obj, inst_dict_of. cbn [PyOpsVersioned.heights fold_right].
-    rewrite height_struct.
-    replace (4 * S (S (attrs_height (i_attrs x ++ internals x t)) + 0))%nat
-      with (S (7 + 4 * attrs_height (i_attrs x ++ internals x t)))%nat by lia.
-    rewrite (SS_body (i_cls x) (i_attrs x) (internals x t) (i_nones x) _ HP S1).
-    - reflexivity.
-    - apply (dict_keys_nodup x t S2).
-    - unfold keys_ok in S2. apply andb_true_iff in S2. destruct S2 as [_ PA]. unfold public_attrs in PA.
-      rewrite forallb_forall in PA. intros p Hp. apply negb_true_iff. apply PA. exact Hp.
-    - apply internals_internal.
-    - unfold keys_ok in S2. apply andb_true_iff in S2. apply (dict_get_nones x t (proj2 S2)).
-    - intros [k v] Hp. rewrite forallb_forall in S3. pose proof (S3 _ Hp) as Sv. cbn [snd] in *.
-      apply (proj1 (T_all HP v Sv)). pose proof (attrs_height_app_l k v _ (internals x t) Hp). lia.
+    intros HP SO. pose proof (Src_str_is_inst_str_nested [] x t HP eq_refl SO) as Q.
+    unfold inst_obj_nested in Q. rewrite lift_attrs_nil in Q. exact Q.
   Qed.
 
   (* ---------------------------------------------------------------- Structure.__repr__, __hash__ *)
@@ -1164,6 +1305,15 @@ Section World.
   Proof.
     intros HP SO. pose proof (Src_str_is_inst_str x t HP SO) as E.
     unfold Src_Structure_hash, py_str, py_str_text. unfold inst_obj in *. cbn [py_repr]. unfold struct_text.
+    rewrite E. reflexivity.
+  Qed.
+
+  Theorem Src_hash_is_inst_hash_nested ni x t :
+    heap_plain -> ni_ok ni = true -> inst_str_ok x = true ->
+    Src_Structure_hash W (inst_obj_nested ni x t) = Ok (zint (inst_hash ns sr ev (so_str_hash O) x)).
+  Proof.
+    intros HP NI SO. pose proof (Src_str_is_inst_str_nested ni x t HP NI SO) as E.
+    unfold Src_Structure_hash, py_str, py_str_text. unfold inst_obj_nested in *. cbn [py_repr]. unfold struct_text.
     rewrite E. reflexivity.
   Qed.
 
@@ -1423,7 +1573,26 @@ Theorem C11_src_to_str :
     Src_to_str (the_world num_str str_repr enum_vrepr str_hash mcall h) v = Ok (PStr (vs num_str str_repr enum_vrepr false v)).
 Proof.
   intros ns sr ev sh mcall h v HP SO. unfold Src_to_str.
-  apply (proj1 (T_all (the_world ns sr ev sh mcall h) HP v SO)). cbn [PyOpsVersioned.heights fold_right]. lia.
+  apply (T_all (the_world ns sr ev sh mcall h) HP v SO). cbn [PyOpsVersioned.heights fold_right]. lia.
+Qed.
+
+(* the same when every NESTED instance carries, besides its public attributes, the internal entries [ni] that
+   typedpy gives an instance (`_none_fields` -- empty --, `_instantiated`): [lift ni v] is the Python-level value *)
+Theorem C11_src_str_nested :
+  forall num_str str_repr enum_vrepr str_hash mcall h ni x t,
+    heap_plain (the_world num_str str_repr enum_vrepr str_hash mcall h) -> ni_ok ni = true -> inst_str_ok x = true ->
+    Src_Structure_str (the_world num_str str_repr enum_vrepr str_hash mcall h) (inst_obj_nested ni x t) =
+    Ok (PStr (inst_str num_str str_repr enum_vrepr x)).
+Proof. intros ns sr ev sh mcall h. exact (Src_str_is_inst_str_nested (the_world ns sr ev sh mcall h)). Qed.
+
+Theorem C11_src_to_str_nested :
+  forall num_str str_repr enum_vrepr str_hash mcall h ni v,
+    heap_plain (the_world num_str str_repr enum_vrepr str_hash mcall h) -> ni_ok ni = true -> str_ok v = true ->
+    Src_to_str (the_world num_str str_repr enum_vrepr str_hash mcall h) (lift ni v) =
+    Ok (PStr (vs num_str str_repr enum_vrepr false v)).
+Proof.
+  intros ns sr ev sh mcall h ni v HP NI SO. unfold Src_to_str.
+  apply (proj1 (T_all_nested (the_world ns sr ev sh mcall h) ni HP NI v SO)). cbn [PyOpsVersioned.heights fold_right]. lia.
 Qed.
 
 (* Structure.__hash__ of the source IS inst_hash *)
@@ -1433,6 +1602,13 @@ Theorem C11_src_hash :
     Src_Structure_hash (the_world num_str str_repr enum_vrepr str_hash mcall h) (inst_obj x t) =
     Ok (zint (inst_hash num_str str_repr enum_vrepr str_hash x)).
 Proof. intros ns sr ev sh mcall h. exact (Src_hash_is_inst_hash (the_world ns sr ev sh mcall h)). Qed.
+
+Theorem C11_src_hash_nested :
+  forall num_str str_repr enum_vrepr str_hash mcall h ni x t,
+    heap_plain (the_world num_str str_repr enum_vrepr str_hash mcall h) -> ni_ok ni = true -> inst_str_ok x = true ->
+    Src_Structure_hash (the_world num_str str_repr enum_vrepr str_hash mcall h) (inst_obj_nested ni x t) =
+    Ok (zint (inst_hash num_str str_repr enum_vrepr str_hash x)).
+Proof. intros ns sr ev sh mcall h. exact (Src_hash_is_inst_hash_nested (the_world ns sr ev sh mcall h)). Qed.
 
 (* Structure.__copy__ / __deepcopy__ of the source yield copy_inst / deepcopy_inst (same class, same __dict__
    entries, internal ones included; `_skip_validation` set and removed again) *)
@@ -1596,6 +1772,15 @@ Example ex_getstate_runs :
   Ok (PDict [(PStr (s2p "n"), PNum (NInt 1)); (PStr (s2p "s"), PStr (s2p "q"))]).
 Proof. vm_compute. reflexivity. Qed.
 
+(* nested instances as typedpy builds them: `_none_fields` = set(), `_instantiated` = True *)
+Definition typedpy_ni : list (pystr * pyval) := [(n_none_fields, PSet false []); (n_instantiated, PBool true)].
+
+Example ex_str_nested_runs :
+  ni_ok typedpy_ni = true /\
+  Src_Structure_str ex_world (inst_obj_nested typedpy_ni ex_a None) =
+  Ok (PStr (s2p "<Instance of A. Properties: extra = [2,<Instance of B. Properties: z = {w}>], n = 1, s = 'q', m = None>")).
+Proof. split; vm_compute; reflexivity. Qed.
+
 (* ------------------------------------------------------------------ where the source and the hand-written model DISAGREE *)
 
 (* 1. A class named `StructureReference_...` whose only base is Structure (what the field StructureReference(...)
@@ -1636,7 +1821,10 @@ Print Assumptions C11_src_field_get.
 Print Assumptions C11_src_str.
 Print Assumptions C11_src_repr.
 Print Assumptions C11_src_to_str.
+Print Assumptions C11_src_str_nested.
+Print Assumptions C11_src_to_str_nested.
 Print Assumptions C11_src_hash.
+Print Assumptions C11_src_hash_nested.
 Print Assumptions C11_src_copy.
 Print Assumptions C11_src_deepcopy.
 Print Assumptions C11_src_getstate.
